@@ -520,10 +520,20 @@ func runFrame(c *RunCtx, prop string) {
 	geom := frameGeoms[name]
 	var m any
 	bodyKind := "body"
+	superJumbo := false
 	ki := t.Intn(len(schema.Tables[schemaOf(name).Table].Keys))
 	switch {
 	case c.Thorough && t.Chance(1, 2500):
-		m = jumboFrame(g, 8_450_000+t.Intn(100_000))
+		n := 8_450_000 + t.Intn(100_000)
+		if t.Chance(1, 12) {
+			// tens of MB (the text's prefix is 32 bits wide, so this is a legal frame): where sums kept
+			// in packed lanes or reduced every so many megabytes run over (seeded change C05-e needs
+			// >= 33.7 MB of 0xFF)
+			n = []int{16_900_000, 33_700_000, 34_000_000, 50_600_000}[t.Intn(4)] + t.Intn(100_000)
+			superJumbo = true
+			c.Probe("super-jumbo-frame")
+		}
+		m = jumboFrame(g, n)
 		name = "szse.SzseBinary"
 		geom = frameGeoms[name]
 		bodyKind = "jumbo"
@@ -648,6 +658,9 @@ func runFrame(c *RunCtx, prop string) {
 	buf := h.build()
 	c.Logf("HISTORY %s (unread=%d)", h.desc, h.unread())
 	re := t.Intn(3)
+	if superJumbo && re > 1 {
+		re = 1 // memory: every further copy of a 50 MB frame doubles the send buffer
+	}
 	for i := 0; i <= re; i++ {
 		if i > 0 && bodyKind != "jumbo" && t.Intn(4) == 0 {
 			// the caller changed its message (texts grow, numbers flip) before sending it again
